@@ -1445,6 +1445,13 @@ def run(ctx):
         except Exception:
             ctx.obligation(f'corr:{phase}:instrumentation', False, 'correspondence', traceback.format_exc()[-800:])
     ctx.extra['witness_search_hits'] = witness(ctx, np.random.default_rng(ctx.seed + 55), quick)
+    try:      # round 6: the default candidate list is per object; the selection sees the column's VALUES whatever the row labels
+        from .. import extra_oracles3
+        extra_oracles3.default_candidates_shared(ctx)
+        extra_oracles3.fit_row_index(ctx, ('selection-sample-size', 'dict'), quick=quick)
+    except Exception as ex:
+        ctx.obligation('oracle:extra:raised', False, 'correspondence', repr(ex))
+        ctx.violation('oracle:extra:raised:' + type(ex).__name__, 'round-6 oracle raised ' + repr(ex), {'repro': '# see tools/vf/extra_oracles3.py'})
     ctx.extra['quirks'] = [
         'D1 (not a violation of C05: no candidate can be fitted, so there is nothing to select; stated as C05_all_fail / C05_fit_all_fail): '
         'select_univariate returns None when every candidate fails and Univariate.fit raises AttributeError("NoneType object has no attribute fit")',
